@@ -39,7 +39,7 @@ def cases(draw):
     tree = draw(fsmodel.trees())
     spec, _after = draw(fsmodel.change_specs(tree, min_leaves=2, max_leaves=7, allow_rm=True))
     # an earlier change that was done and undone again: the redo list is not empty when the composite change is attempted
-    return {"tree": tree, "spec": spec, "prior_undone": draw(st.booleans()),
+    return {"tree": tree, "spec": spec, "prior_undone": draw(st.booleans()), "undo_drop": draw(st.booleans()),
             # one more sub-change in the middle: a move INTO a folder that does not exist (an organically failing step)
             "move_to_missing": draw(st.integers(0, 4)) == 0}
 
@@ -142,17 +142,25 @@ def _setup(case, phase, fs):
         changes.changes.insert(min(1, len(changes.changes)), MoveResource(project.get_file("zz_mv_src.txt"), "zz_gone/deeper/x.txt"))
     if phase in ("undo", "redo"):
         project.do(changes)
+    if case.get("prior_undone") and phase == "undo":
+        # the redo list is not empty when the undo is attempted (a later, unrelated change was done and undone)
+        from rope.base.change import ChangeSet, CreateResource
+
+        prior = ChangeSet("prior")
+        prior.add_change(CreateResource(project.get_file("zz_prior.txt")))
+        project.do(prior)
+        project.history.undo()
     if phase == "redo":
         project.history.undo()
     return root, project, changes
 
 
-def _run_phase(project, changes, phase, task_handle=None):
+def _run_phase(project, changes, phase, task_handle=None, drop=False):
     kw = {} if task_handle is None else {"task_handle": task_handle}
     if phase == "do":
         project.do(changes, **kw)
     elif phase == "undo":
-        project.history.undo(**kw)
+        project.history.undo(drop=drop, **kw)
     else:
         project.history.redo(**kw)
 
@@ -196,7 +204,7 @@ def evaluate(case, env):
             before = fsmodel.snapshot(root)
             hist = (list(project.history.undo_list), list(project.history.redo_list))
             try:
-                _run_phase(project, changes, phase, th)
+                _run_phase(project, changes, phase, th, drop=bool(case.get("undo_drop")))
                 natural_error = None
             except Exception as e:  # RemoveResource.undo raises NotImplementedError
                 natural_error = e
@@ -241,7 +249,7 @@ def evaluate(case, env):
                     fs.armed = True
                     raised = False
                     try:
-                        _run_phase(project, changes, phase)
+                        _run_phase(project, changes, phase, drop=bool(case.get("undo_drop")))
                     except Exception:
                         raised = True
                     fs.armed = False
@@ -274,9 +282,17 @@ def evaluate(case, env):
                 hist = (list(project.history.undo_list), list(project.history.redo_list))
                 raised = False
                 try:
-                    _run_phase(project, changes, phase, th)
-                except Exception:
+                    _run_phase(project, changes, phase, th, drop=bool(case.get("undo_drop")))
+                except Exception as e_:
                     raised = True
+                    from rope.base import exceptions as rex
+
+                    if not isinstance(e_, rex.InterruptedTaskError):
+                        # "reports the error": the interruption, not a second failure met while cleaning up
+                        if isinstance(e_, NotImplementedError) and env.known("rm_undo_not_implemented"):
+                            out.excluded["rm_undo_not_implemented"] += 1
+                        else:
+                            out.violation("C10:%s:stop:other_error_reported:%s" % (phase, type(e_).__name__), "stop at notification %d: %r" % (j, e_), {"phase": phase, "fault": "stop", "index": j})
                 out.evals += 1
                 if j == n_notes and not raised:
                     # stop requested in the very last notification: nothing is left to interrupt
